@@ -106,8 +106,12 @@ def rand_history(rng):
     fin = rng.random()
     if fin < 0.15:
         steps.append(("detach",))
-    if rng.random() < 0.3:
-        steps.append(("dirty", rng.choice(["untracked", "modified", "staged"])))
+    # a branch named exactly like one of the version tags (git then abbreviates the tag as "tags/<name>" in some listings)
+    vtags = [st[1] for st in steps if st[0] in ("tag", "atag") and st[1] not in branches and "/" not in st[1]]
+    if vtags and rng.random() < 0.25:
+        steps.append(("branchat", rng.choice(vtags)))
+    if rng.random() < 0.4:
+        steps.append(("dirty", rng.choice(["untracked", "modified", "staged", "index_only_mod", "index_only_add", "deleted", "staged_delete"])))
     if rng.random() < 0.1:
         steps.append(("ignored",))
     return steps
